@@ -27,28 +27,29 @@ Local Arguments N.of_nat : simpl never.
 (* min_tombstone for a validated address size *)
 Definition mtomb (h : header) : N := N.land (two64 - 2) (mask_of (h_addr_size h)).
 
-(* outside the F10 class (midseq_scan) AND every DW_LNE_set_address operand below the tombstone values *)
-Fixpoint plain_scan (mt : N) (is : list insn) (moved : bool) : bool :=
+(* outside the F10 class (midseq_scan) AND no DW_LNE_set_address operand equal to `mt` (the -2 tombstone, which the
+   reader drops but the converter keeps); the DWARF tombstone -1 (all ones) is inside the class *)
+Fixpoint plain_scan (strict : bool) (mt : N) (is : list insn) (moved : bool) : bool :=
   match is with
   | [] => true
-  | LineSpec.ISetAddress a :: r => negb moved && (a <? mt) && plain_scan mt r true
-  | LineSpec.IEndSequence :: r => plain_scan mt r false
+  | LineSpec.ISetAddress a :: r => negb moved && (negb strict || negb (a =? mt)) && plain_scan strict mt r true
+  | LineSpec.IEndSequence :: r => plain_scan strict mt r false
   | LineSpec.ICopy :: r | LineSpec.ISpecial _ :: r | LineSpec.IAdvancePc _ :: r | LineSpec.IConstAddPc :: r
-  | LineSpec.IFixedAddPc _ :: r => plain_scan mt r true
-  | _ :: r => plain_scan mt r moved
+  | LineSpec.IFixedAddPc _ :: r => plain_scan strict mt r true
+  | _ :: r => plain_scan strict mt r moved
   end.
 
 Definition addrs_below (mt : N) (is : list insn) : bool :=
-  forallb (fun i => match i with LineSpec.ISetAddress a => a <? mt | _ => true end) is.
+  forallb (fun i => match i with LineSpec.ISetAddress a => negb (a =? mt) | _ => true end) is.
 
-Lemma plain_scan_iff mt : forall is moved,
-  plain_scan mt is moved = negb (midseq_scan is moved) && addrs_below mt is.
+Lemma plain_scan_iff strict mt : forall is moved,
+  plain_scan strict mt is moved = negb (midseq_scan is moved) && (negb strict || addrs_below mt is).
 Proof.
-  induction is as [|i is IH]; intros moved; [reflexivity|].
+  induction is as [|i is IH]; intros moved; [destruct strict; reflexivity|].
   destruct i; cbn [plain_scan midseq_scan addrs_below forallb]; fold (addrs_below mt is);
     rewrite ?IH; try reflexivity.
   destruct moved; cbn [negb andb]; [reflexivity|].
-  destruct (a <? mt); destruct (midseq_scan is true); destruct (addrs_below mt is); reflexivity.
+  destruct strict; destruct (a =? mt); destruct (midseq_scan is true); destruct (addrs_below mt is); reflexivity.
 Qed.
 
 (* ------------------------------------------------------------------ small facts *)
@@ -59,6 +60,14 @@ Proof.
   assert (C : h_addr_size h = 1 \/ h_addr_size h = 2 \/ h_addr_size h = 3 \/ h_addr_size h = 4 \/
               h_addr_size h = 5 \/ h_addr_size h = 6 \/ h_addr_size h = 7 \/ h_addr_size h = 8) by lia.
   repeat (destruct C as [C|C]; [rewrite C; vm_compute; split; reflexivity|]). rewrite C. vm_compute. split; reflexivity.
+Qed.
+
+Lemma mtomb_succ h : asz_ok h -> mtomb h + 1 = mask_of (h_addr_size h).
+Proof.
+  unfold asz_ok, mtomb. intros Hs.
+  assert (C : h_addr_size h = 1 \/ h_addr_size h = 2 \/ h_addr_size h = 3 \/ h_addr_size h = 4 \/
+              h_addr_size h = 5 \/ h_addr_size h = 6 \/ h_addr_size h = 7 \/ h_addr_size h = 8) by lia.
+  repeat (destruct C as [C|C]; [rewrite C; vm_compute; reflexivity|]). rewrite C. vm_compute. reflexivity.
 Qed.
 
 Lemma min_tombstone_mtomb dbg h : asz_ok h -> min_tombstone_g dbg (h_addr_size h) = Ok (mtomb h).
@@ -85,17 +94,32 @@ Definition LIVE (h : header) (r q : row) (base : N) : Prop :=
 Section Sim.
 Variables (dbg be : bool) (sx : secs) (h : header).
 Hypothesis Hh : hdr_ok h.
+Variable strict : bool.     (* true: the -2 operand is excluded from the class; false: only F10 is *)
 
 Definition PS (f : nat) (inp : list byte) (moved : bool) : Prop :=
-  plain_scan (mtomb h) (fst (insns_loop f dbg be h inp)) moved = true.
+  plain_scan strict (mtomb h) (fst (insns_loop f dbg be h inp)) moved = true.
+
+(* the converter returned an event of a GHOST sequence (DW_LNE_set_address -2: dropped by the reader, kept by the
+   converter) while the reader is still skipping: its pending loop continues from (r'', the converter's input) *)
+Definition GH (pend : bool) (c0 : cl) (ro : nr_out * lr_state) (ev : clrow) (c' : cl) : Prop :=
+  strict = false /\
+  exists f1' r'' added'',
+    ro = next_row_loop f1' dbg be false h r'' (cl_inp c') added'' false /\
+    (exists extra, cl_files c' = cl_files c0 ++ extra) /\
+    (exists f3' moved', (length (cl_inp c') < f3')%nat /\ PS f3' (cl_inp c') moved' /\
+        ((r_end (cl_row c') = false /\ moved' = true /\ r_tomb r'' = true /\ r_end r'' = false /\
+          (ev = CRSetAddress (mtomb h) /\ cl_st c' = CSConvertRow \/
+           (exists w, ev = CRRow w) /\ cl_st c' = CSReadRow /\ cl_addr c' = None /\ pend = false)) \/
+         (r_end (cl_row c') = true /\ r'' = row_new h /\ cl_st c' = CSReadRow /\ exists off, ev = CREndSequence off))).
 
 (* what one reader call and one converter call, started in related states, return *)
-Definition sim_post (base_in : N) (moved_in : bool) (c0 : cl) (ro : nr_out * lr_state) (co : rr_out) : Prop :=
+Definition sim_post (pend : bool) (base_in : N) (moved_in : bool) (c0 : cl) (ro : nr_out * lr_state) (co : rr_out) : Prop :=
   match ro, co with
   | (NRow, st'), (Ok (Some ev), c') =>
+      (moved_in = false /\ GH pend c0 ro ev c') \/
       let r' := st_row st' in
-      exists base',
-        cl_inp c' = st_inp st' /\ LIVE h r' (cl_row c') base' /\
+      pend = true /\ exists base',
+        cl_inp c' = st_inp st' /\ st_inseq st' = negb (r_end r') /\ LIVE h r' (cl_row c') base' /\
         (exists extra, cl_files c' = cl_files c0 ++ extra) /\
         (exists f3' moved', (length (st_inp st') < f3')%nat /\ PS f3' (st_inp st') moved' /\
                             (moved' = false -> r_end r' = true)) /\
@@ -104,19 +128,92 @@ Definition sim_post (base_in : N) (moved_in : bool) (c0 : cl) (ro : nr_out * lr_
          else (ev = CRSetAddress base' /\ cl_st c' = CSConvertRow /\ moved_in = false) \/
               (base' = base_in /\ cl_st c' = CSReadRow /\ exists w, ev = CRRow w /\ convert_row h c' = Ok w))
   | (NRow, _), (Ok None, _) => False
-  | (NNone, _), (Ok (Some _), _) => False
+  | (NNone, _), (Ok (Some ev), c') => moved_in = false /\ GH pend c0 ro ev c'
   | (NNone, _), (Ok None, c') => exists extra, cl_files c' = cl_files c0 ++ extra
   | _, _ => True
   end.
 
-Lemma sim_post_err b m c0 ro e c' : sim_post b m c0 ro (Err e, c').
-Proof. destruct ro as [[| | | |] st]; exact I. Qed.
-Lemma sim_post_panic b m c0 ro c' : sim_post b m c0 ro (Panic, c').
-Proof. destruct ro as [[| | | |] st]; exact I. Qed.
-Lemma sim_post_fuel b m c0 ro c' : sim_post b m c0 ro (OutOfFuel, c').
-Proof. destruct ro as [[| | | |] st]; exact I. Qed.
+Lemma live_new0 : LIVE h (row_new h) (row_new h) 0.
+Proof. unfold LIVE. repeat split; try reflexivity; cbn; try lia; apply N.le_0_l. Qed.
 
-Lemma sim_loop : forall f1 f2 f3 r inp added inseq c moved base base_in moved_in c0,
+Lemma sim_post_err pd b m c0 ro e c' : sim_post pd b m c0 ro (Err e, c').
+Proof. destruct ro as [[| | | |] st]; exact I. Qed.
+Lemma sim_post_panic pd b m c0 ro c' : sim_post pd b m c0 ro (Panic, c').
+Proof. destruct ro as [[| | | |] st]; exact I. Qed.
+Lemma sim_post_fuel pd b m c0 ro c' : sim_post pd b m c0 ro (OutOfFuel, c').
+Proof. destruct ro as [[| | | |] st]; exact I. Qed.
+Lemma gh_intro pd b m c0 ro ev c' : m = false -> GH pd c0 ro ev c' -> sim_post pd b m c0 ro (Ok (Some ev), c').
+Proof. destruct ro as [[| | | |] st]; intros M G; cbn; auto; exact I. Qed.
+
+(* execute on a tombstoned reader row keeps it tombstoned *)
+Lemma execute_tomb r i r' x :
+  r_tomb r = true -> (forall a, i <> LineSpec.ISetAddress a) ->
+  execute dbg h r i = Ok (r', x) -> r_tomb r' = true.
+Proof.
+  intros Ht Hi.
+  assert (A : forall adv k, adv_result (apply_operation_advance dbg h r adv) k = Ok (r', x) -> r_tomb r' = true).
+  { intros adv k. unfold apply_operation_advance. rewrite Ht. cbn. intros E; inversion E; subst; exact Ht. }
+  destruct i; cbn [execute]; try (intros E; inversion E; subst; cbn; exact Ht).
+  - destruct (adjust_opcode dbg h op); cbn [bind]; try discriminate.
+    destruct (h_line_range h =? 0); [discriminate|].
+    unfold apply_operation_advance. rewrite tomb_line_advance, Ht. cbn. intros E; inversion E; subst.
+    rewrite tomb_line_advance. exact Ht.
+  - apply A.
+  - intros E; inversion E; subst. rewrite tomb_line_advance. exact Ht.
+  - destruct (adjust_opcode dbg h 255); cbn [bind]; try discriminate.
+    destruct (h_line_range h =? 0); [discriminate|]. apply A.
+  - rewrite Ht. intros E; inversion E; subst; exact Ht.
+  - exfalso. eapply Hi. reflexivity.
+Qed.
+
+(* the outcome kind and the end_sequence flag depend on the instruction only *)
+Lemma aoa_end r adv r' e : apply_operation_advance dbg h r adv = Ok (r', e) -> r_end r' = r_end r.
+Proof.
+  unfold apply_operation_advance. destruct (r_tomb r); [intros E; inversion E; reflexivity|].
+  destruct (h_max_ops h =? 1); [|destruct (h_max_ops h =? 0); [discriminate|]]; cbn [bind];
+    match goal with |- context [add_sized_g ?d ?a ?b ?c] => destruct (add_sized_g d a b c) end;
+    intros E; inversion E; reflexivity.
+Qed.
+
+Lemma adv_result_shape r adv k r' x :
+  adv_result (apply_operation_advance dbg h r adv) k = Ok (r', x) -> (forall e, x <> XErr e) ->
+  x = k /\ r_end r' = r_end r.
+Proof.
+  unfold adv_result. destruct (apply_operation_advance dbg h r adv) as [[r0 [e|]]|e| |] eqn:EA; cbn;
+    intros E Hx; inversion E; subst; [exfalso; eapply Hx; reflexivity|].
+  split; [reflexivity|eapply aoa_end; exact EA].
+Qed.
+
+Lemma execute_shape r q i r' x q' y :
+  (forall a, i <> LineSpec.ISetAddress a) ->
+  execute dbg h r i = Ok (r', x) -> execute dbg h q i = Ok (q', y) ->
+  (forall e, x <> XErr e) -> (forall e, y <> XErr e) -> r_end r = r_end q ->
+  x = y /\ r_end r' = r_end q'.
+Proof.
+  intros Hi. destruct i; cbn [execute];
+    try solve [intros E1 E2 _ _ He; inversion E1; inversion E2; subst; cbn; auto].
+  - destruct (adjust_opcode dbg h op); cbn [bind]; try discriminate.
+    destruct (h_line_range h =? 0); [discriminate|].
+    intros E1 E2 H1 H2 He. destruct (adv_result_shape _ _ _ _ _ E1 H1) as [-> A1].
+    destruct (adv_result_shape _ _ _ _ _ E2 H2) as [-> A2]. rewrite A1, A2, !end_line_advance. auto.
+  - intros E1 E2 H1 H2 He. destruct (adv_result_shape _ _ _ _ _ E1 H1) as [-> A1].
+    destruct (adv_result_shape _ _ _ _ _ E2 H2) as [-> A2]. rewrite A1, A2. auto.
+  - intros E1 E2 _ _ He; inversion E1; inversion E2; subst. rewrite !end_line_advance. auto.
+  - destruct (adjust_opcode dbg h 255); cbn [bind]; try discriminate.
+    destruct (h_line_range h =? 0); [discriminate|].
+    intros E1 E2 H1 H2 He. destruct (adv_result_shape _ _ _ _ _ E1 H1) as [-> A1].
+    destruct (adv_result_shape _ _ _ _ _ E2 H2) as [-> A2]. rewrite A1, A2. auto.
+  - intros E1 E2 H1 H2 He.
+    destruct (r_tomb r); [inversion E1; subst|
+      destruct (add_sized_g dbg (r_addr r) n (h_addr_size h)); inversion E1; subst; [|exfalso; eapply H1; reflexivity]];
+    (destruct (r_tomb q); [inversion E2; subst|
+      destruct (add_sized_g dbg (r_addr q) n (h_addr_size h)); inversion E2; subst; [|exfalso; eapply H2; reflexivity]]);
+    cbn; auto.
+  - exfalso. eapply Hi. reflexivity.
+Qed.
+
+Definition live_stmt (f1 : nat) : Prop :=
+  forall f2 f3 r inp added inseq c moved base base_in moved_in c0,
   cl_inp c = inp -> cl_st c = CSReadRow ->
   (length inp < f2)%nat -> (length inp < f3)%nat ->
   PS f3 inp moved ->
@@ -125,19 +222,50 @@ Lemma sim_loop : forall f1 f2 f3 r inp added inseq c moved base base_in moved_in
   (moved = false -> r_addr r = 0 /\ base = 0 /\ cl_addr c = None) ->
   (moved_in = true -> moved = true) ->
   (exists extra, cl_files c = cl_files c0 ++ extra) ->
-  sim_post base_in moved_in c0 (next_row_loop f1 dbg be false h r inp added inseq)
+  (inseq = true -> moved = true) ->
+  sim_post true base_in moved_in c0 (next_row_loop f1 dbg be false h r inp added inseq)
            (read_loop f2 dbg be sx h c false).
+
+(* inside a sequence whose DW_LNE_set_address operand is the tombstone -1: reader row tombstoned, converter's
+   local `tombstone` set; both skip every row up to and including the end_sequence, then both restart *)
+Definition tomb_stmt (f1 : nat) : Prop :=
+  forall f2 f3 r inp added c c0,
+  cl_inp c = inp -> cl_st c = CSReadRow ->
+  (length inp < f2)%nat -> (length inp < f3)%nat ->
+  PS f3 inp true ->
+  r_tomb r = true -> r_end r = r_end (cl_row c) ->
+  (exists extra, cl_files c = cl_files c0 ++ extra) ->
+  sim_post true 0 false c0 (next_row_loop f1 dbg be false h r inp added false)
+           (read_loop f2 dbg be sx h c true).
+
+(* inside a sequence whose DW_LNE_set_address operand is -2: reader row tombstoned, converter live on its own *)
+Definition ghost_stmt (f1 : nat) : Prop :=
+  forall f2 f3 r inp added c c0 pd b m,
+  strict = false -> m = false -> (pd = true -> cl_addr c = Some (mtomb h)) ->
+  cl_inp c = inp -> cl_st c = CSReadRow ->
+  (length inp < f2)%nat -> (length inp < f3)%nat ->
+  PS f3 inp true ->
+  r_tomb r = true -> r_end r = r_end (cl_row c) ->
+  (cl_addr c = Some (mtomb h) \/ cl_addr c = None) ->
+  (exists extra, cl_files c = cl_files c0 ++ extra) ->
+  sim_post pd b m c0 (next_row_loop f1 dbg be false h r inp added false)
+           (read_loop f2 dbg be sx h c false).
+
+Lemma sim_both : forall f1, live_stmt f1 /\ tomb_stmt f1 /\ ghost_stmt f1.
 Proof.
   pose proof Hh as (Hlr & Hmo & Hob & Hsz).
-  induction f1 as [|f1 IH]; intros f2 f3 r inp added inseq c moved base base_in moved_in c0
-    Einp Hst Hf2 Hf3 HPS HL Hpend Hmoved Hmi Hfiles; [exact I|].
+  induction f1 as [|f1 IHb]; [split; [unfold live_stmt|split; [unfold tomb_stmt|unfold ghost_stmt]]; intros; exact I|].
+  destruct IHb as (IH & IHT & IHG). split; [|split].
+  { unfold live_stmt in *.
+  intros f2 f3 r inp added inseq c moved base base_in moved_in c0
+    Einp Hst Hf2 Hf3 HPS HL Hpend Hmoved Hmi Hfiles Hinseq.
   destruct f2 as [|f2]; [lia|]. destruct f3 as [|f3]; [lia|].
   cbn [next_row_loop read_loop]. rewrite Einp.
   destruct inp as [|b input]; [exact Hfiles|].
   destruct (parse_insn dbg be h (b :: input)) as [[i rest]|e| |] eqn:EP; try exact I.
   pose proof (parse_insn_good dbg be h (b :: input)) as G. rewrite EP in G. cbn [good] in G.
   destruct G as (Gs & Gl & Gi); cbn [fst snd] in Gs, Gl, Gi.
-  assert (Hscan : plain_scan (mtomb h) (i :: fst (insns_loop f3 dbg be h rest)) moved = true).
+  assert (Hscan : plain_scan strict (mtomb h) (i :: fst (insns_loop f3 dbg be h rest)) moved = true).
   { unfold PS in HPS. rewrite (insns_step dbg be h f3 (b :: input) i rest) in HPS; [exact HPS|discriminate|exact EP]. }
   set (c1 := with_inp rest c).
   destruct HL as (Ht & Eq & Hb & Hm).
@@ -145,12 +273,12 @@ Proof.
   assert (Lr3 : (length rest < f3)%nat) by (cbn [length] in Gl, Hf3; lia).
   (* every instruction except set_address / define_file *)
   assert (D : forall i0 moved1, insn_ok h i0 ->
-    plain_scan (mtomb h) (fst (insns_loop f3 dbg be h rest)) moved1 = true ->
+    plain_scan strict (mtomb h) (fst (insns_loop f3 dbg be h rest)) moved1 = true ->
     (forall r', execute dbg h r i0 = Ok (r', XNoRow) ->
         (moved_in = true -> moved1 = true) /\ (moved1 = false -> r_addr r' = 0 /\ moved = false)) ->
     (forall r', execute dbg h r i0 = Ok (r', XRow) -> moved1 = false -> r_end r' = true) ->
     (forall a, i0 <> LineSpec.ISetAddress a) ->
-    sim_post base_in moved_in c0
+    sim_post true base_in moved_in c0
       (match execute dbg h r i0 with
        | Ok (r', XRow) =>
            if r_tomb r' && negb (r_end r' && inseq)
@@ -194,21 +322,21 @@ Proof.
       destruct (r_end r') eqn:Ee.
       + pose proof (address_offset_exact (with_row (rebase base r') c1)) as AO.
         destruct (convert_address_offset (with_row (rebase base r') c1)) as [ao|e| |]; try contradiction; try exact I.
-        destruct AO as [-> _]. cbn [sim_post st_row st_inp]. exists base.
-        split; [reflexivity|]. split; [repeat split; assumption|]. split; [exact Hfiles|].
+        destruct AO as [-> _]. cbn [sim_post st_row st_inp]. right. split; [reflexivity|]. exists base.
+        split; [reflexivity|]. split; [cbn [st_inseq st_row]; rewrite ?Ee; reflexivity|]. split; [repeat split; assumption|]. split; [exact Hfiles|].
         split; [exists f3, moved1; split; [exact Lr3|split; [exact HS1|intros M; exact (HR r' eq_refl M)]]|].
         rewrite Ee. split; [reflexivity|]. split; [exact Hst|].
         destruct Hpend as [[_ ?]|[_ ?]]; auto.
       + change (cl_addr (with_row (rebase base r') c1)) with (cl_addr c).
         destruct Hpend as [[Ea Emi]|[Ea Eb]]; rewrite Ea.
-        * cbn [sim_post st_row st_inp]. exists base.
-          split; [reflexivity|]. split; [repeat split; assumption|]. split; [exact Hfiles|].
+        * cbn [sim_post st_row st_inp]. right. split; [reflexivity|]. exists base.
+          split; [reflexivity|]. split; [cbn [st_inseq st_row]; rewrite ?Ee; reflexivity|]. split; [repeat split; assumption|]. split; [exact Hfiles|].
           split; [exists f3, moved1; split; [exact Lr3|split; [exact HS1|intros M; exact (HR r' eq_refl M)]]|].
           rewrite Ee. left. repeat split; assumption.
         * unfold ret_row.
           destruct (convert_row h (with_st CSReadRow (with_row (rebase base r') c1))) as [w|e| |] eqn:EC; try exact I.
-          cbn [sim_post st_row st_inp]. exists base.
-          split; [reflexivity|]. split; [repeat split; assumption|]. split; [exact Hfiles|].
+          cbn [sim_post st_row st_inp]. right. split; [reflexivity|]. exists base.
+          split; [reflexivity|]. split; [cbn [st_inseq st_row]; rewrite ?Ee; reflexivity|]. split; [repeat split; assumption|]. split; [exact Hfiles|].
           split; [exists f3, moved1; split; [exact Lr3|split; [exact HS1|intros M; exact (HR r' eq_refl M)]]|].
           rewrite Ee. right. split; [exact Eb|]. split; [reflexivity|]. exists w. split; [reflexivity|exact EC].
     - (* XNoRow *)
@@ -218,7 +346,9 @@ Proof.
       apply (IH f2 f3 r' rest _ inseq (with_row (rebase base r') c1) moved1 base base_in moved_in c0);
         try reflexivity; try assumption.
       + repeat split; assumption.
-      + intros M. destruct (HX2 M) as [Z0 M0]. destruct (Hmoved M0) as (_ & B0 & A0). auto. }
+      + intros M. destruct (HX2 M) as [Z0 M0]. destruct (Hmoved M0) as (_ & B0 & A0). auto.
+      + intros M. destruct moved1; [reflexivity|]. destruct (HX2 eq_refl) as [_ M0].
+        rewrite (Hinseq M) in M0. discriminate M0. }
   destruct i; try (apply (D _ moved Gi Hscan); [intros r' E; inversion E; subst; split; [exact Hmi|intros M; split; [apply Hmoved in M; cbn; tauto|exact M]]|intros r' E; discriminate E|intros a0; discriminate]).
   - (* ISpecial *) apply (D _ true Gi Hscan); [intros r' E; split; [reflexivity|discriminate]|intros r' E M; discriminate M|intros a0; discriminate].
   - (* ICopy *) apply (D _ true Gi Hscan); [intros r' E; split; [reflexivity|discriminate]|intros r' E M; discriminate M|intros a0; discriminate].
@@ -231,48 +361,356 @@ Proof.
   - (* IFixedAddPc *) apply (D _ true Gi Hscan); [intros r' E; split; [reflexivity|discriminate]|intros r' E M; discriminate M|intros a0; discriminate].
   - (* IEndSequence *)
     apply (D _ false Gi Hscan); [intros r' E; discriminate E|intros r' E _; inversion E; reflexivity|intros a0; discriminate].
-  - (* ISetAddress: the first address of its sequence, below the tombstones *)
+  - (* ISetAddress: the first address of its sequence; not the -2 value *)
     cbn [plain_scan] in Hscan.
     destruct moved; [discriminate Hscan|]. cbn [negb andb] in Hscan.
-    destruct (a <? mtomb h) eqn:Ea; [|discriminate Hscan]. cbn [andb] in Hscan.
     destruct (Hmoved eq_refl) as (R0 & B0 & A0). subst base.
-    destruct (mtomb_le_mask h Hsz) as [Mm M0].
-    (* converter *)
+    destruct (mtomb_le_mask h Hsz) as [Mm M0]. pose proof (mtomb_succ h Hsz) as Msucc.
+    destruct Gi as [Ga _]. unfold amask in Ga.
     assert (Q0 : r_addr (cl_row c1) = 0) by (change (cl_row c1) with (cl_row c); rewrite Eq; cbn; lia).
-    rewrite (set_address_zero dbg h (cl_row c1) Hh Q0).
-    rewrite (ones_sized_ok dbg (h_addr_size h) Hsz). cbv zeta.
-    replace (a =? mask_of (h_addr_size h)) with false by (symmetry; apply N.eqb_neq; lia).
-    (* reader *)
-    cbn [execute]. rewrite R0.
-    replace (a <? 0) with false by (symmetry; apply N.ltb_ge; lia).
-    rewrite (min_tombstone_mtomb dbg h Hsz). cbn [bind].
-    replace (mtomb h <=? a) with false by (symmetry; apply N.leb_gt; lia).
-    destruct Gi as [Ga _].
-    apply (IH f2 f3 _ rest _ inseq _ true a base_in moved_in c0); try reflexivity; try assumption.
-    + repeat split; cbn; try lia.
-      rewrite Eq. unfold rebase, set_opi, set_addr, set_tomb. cbn.
-      f_equal. lia.
-    + left. split; [reflexivity|]. destruct moved_in; [specialize (Hmi eq_refl); discriminate Hmi|reflexivity].
-    + intros M; discriminate M.
+    assert (Bin : base_in = 0 /\ moved_in = false).
+    { split; [destruct Hpend as [[Hp _]|[_ Hp]]; [rewrite A0 in Hp; discriminate Hp|symmetry; exact Hp]|].
+      destruct moved_in; [specialize (Hmi eq_refl); discriminate Hmi|reflexivity]. }
+    assert (Ei : inseq = false) by (destruct inseq; [specialize (Hinseq eq_refl); discriminate Hinseq|reflexivity]).
+    destruct (a =? mtomb h) eqn:Ea.
+    { (* the value -2: the reader drops the sequence, the converter keeps it (ghost) *)
+      apply N.eqb_eq in Ea.
+      assert (Es : strict = false) by (generalize Hscan; case strict; cbn [negb orb andb]; [discriminate|reflexivity]).
+      assert (Hscan' : plain_scan strict (mtomb h) (fst (insns_loop f3 dbg be h rest)) true = true).
+      { generalize Hscan. case strict; cbn [negb orb andb]; [discriminate|intros H0; exact H0]. }
+      clear Hscan. rename Hscan' into Hscan.
+      rewrite (set_address_zero dbg h (cl_row c1) Hh Q0).
+      rewrite (ones_sized_ok dbg (h_addr_size h) Hsz). cbv zeta.
+      replace (a =? mask_of (h_addr_size h)) with false by (symmetry; apply N.eqb_neq; lia).
+      cbn [execute]. rewrite R0.
+      replace (a <? 0) with false by (symmetry; apply N.ltb_ge; lia).
+      rewrite (min_tombstone_mtomb dbg h Hsz). cbn [bind].
+      replace (mtomb h <=? a) with true by (symmetry; apply N.leb_le; lia).
+      subst inseq.
+      apply (IHG f2 f3 _ rest _ _ c0 true base_in moved_in Es (proj2 Bin)); try reflexivity; try assumption.
+      - intros _. cbn. rewrite Ea. reflexivity.
+      - change (cl_row c1) with (cl_row c). rewrite Eq. reflexivity.
+      - left. cbn. rewrite Ea. reflexivity. }
+    assert (Hscan' : plain_scan strict (mtomb h) (fst (insns_loop f3 dbg be h rest)) true = true).
+    { generalize Hscan. case strict; cbn [negb orb andb]; intros H0; exact H0. }
+    clear Hscan. rename Hscan' into Hscan. apply N.eqb_neq in Ea.
+    destruct (a <? mtomb h) eqn:Elt.
+    + (* a live address *)
+      rewrite (set_address_zero dbg h (cl_row c1) Hh Q0).
+      rewrite (ones_sized_ok dbg (h_addr_size h) Hsz). cbv zeta.
+      replace (a =? mask_of (h_addr_size h)) with false by (symmetry; apply N.eqb_neq; lia).
+      cbn [execute]. rewrite R0.
+      replace (a <? 0) with false by (symmetry; apply N.ltb_ge; lia).
+      rewrite (min_tombstone_mtomb dbg h Hsz). cbn [bind].
+      replace (mtomb h <=? a) with false by (symmetry; apply N.leb_gt; lia).
+      apply (IH f2 f3 _ rest _ inseq _ true a base_in moved_in c0); try reflexivity; try assumption.
+      * repeat split; cbn; try (unfold amask; lia).
+        rewrite Eq. unfold rebase, set_opi, set_addr, set_tomb. cbn.
+        f_equal. lia.
+      * left. split; [reflexivity|exact (proj2 Bin)].
+      * intros M; discriminate M.
+    + (* the DWARF tombstone -1: a = 2^(8*size) - 1 *)
+      assert (Ea1 : a = mask_of (h_addr_size h)) by lia.
+      rewrite (set_address_zero dbg h (cl_row c1) Hh Q0).
+      rewrite (ones_sized_ok dbg (h_addr_size h) Hsz). cbv zeta.
+      replace (a =? mask_of (h_addr_size h)) with true by (symmetry; apply N.eqb_eq; exact Ea1).
+      cbn [execute]. rewrite R0.
+      replace (a <? 0) with false by (symmetry; apply N.ltb_ge; lia).
+      rewrite (min_tombstone_mtomb dbg h Hsz). cbn [bind].
+      replace (mtomb h <=? a) with true by (symmetry; apply N.leb_le; lia).
+      destruct Bin as [-> ->].
+      subst inseq.
+      apply (IHT f2 f3 _ rest _ _ c0); try reflexivity; try assumption.
+      change (cl_row c1) with (cl_row c). rewrite Eq. reflexivity.
   - (* IDefineFile *)
     cbn [plain_scan] in Hscan. cbn [execute].
     destruct (convert_file sx (p_enc (cl_prog c1)) (cl_dirs c1) (cl_ls c1) f) as [[[[name d] info] ls']|e| |];
       try (match goal with
-           | |- sim_post _ _ _ ?ro (Err ?e, ?c') => exact (sim_post_err base_in moved_in c0 ro e c')
-           | |- sim_post _ _ _ ?ro (Panic, ?c') => exact (sim_post_panic base_in moved_in c0 ro c')
-           | |- sim_post _ _ _ ?ro (OutOfFuel, ?c') => exact (sim_post_fuel base_in moved_in c0 ro c')
+           | |- sim_post _ _ _ _ ?ro (Err ?e, ?c') => exact (sim_post_err true base_in moved_in c0 ro e c')
+           | |- sim_post _ _ _ _ ?ro (Panic, ?c') => exact (sim_post_panic true base_in moved_in c0 ro c')
+           | |- sim_post _ _ _ _ ?ro (OutOfFuel, ?c') => exact (sim_post_fuel true base_in moved_in c0 ro c')
            end).
     destruct (LineWr.add_file (cl_prog c1) name d info) as [[p' id]|e| |];
       try (match goal with
-           | |- sim_post _ _ _ ?ro (Err ?e, ?c') => exact (sim_post_err base_in moved_in c0 ro e c')
-           | |- sim_post _ _ _ ?ro (Panic, ?c') => exact (sim_post_panic base_in moved_in c0 ro c')
-           | |- sim_post _ _ _ ?ro (OutOfFuel, ?c') => exact (sim_post_fuel base_in moved_in c0 ro c')
+           | |- sim_post _ _ _ _ ?ro (Err ?e, ?c') => exact (sim_post_err true base_in moved_in c0 ro e c')
+           | |- sim_post _ _ _ _ ?ro (Panic, ?c') => exact (sim_post_panic true base_in moved_in c0 ro c')
+           | |- sim_post _ _ _ _ ?ro (OutOfFuel, ?c') => exact (sim_post_fuel true base_in moved_in c0 ro c')
            end).
     apply (IH f2 f3 r rest _ inseq (with_file p' ls' id c1) moved base base_in moved_in c0);
       try reflexivity; try assumption.
     + repeat split; assumption.
-    + destruct Hfiles as [extra Hx]. exists (extra ++ [id]). cbn. rewrite Hx, app_assoc. reflexivity.
+    + destruct Hfiles as [extra Hx]. exists (extra ++ [id]). cbn. rewrite Hx, app_assoc. reflexivity. }
+  (* ---------------- the tombstoned stretch *)
+  { unfold tomb_stmt. intros f2 f3 r inp added c c0 Einp Hst Hf2 Hf3 HPS Ht Hee Hfiles.
+  destruct f2 as [|f2]; [lia|]. destruct f3 as [|f3]; [lia|].
+  cbn [next_row_loop read_loop]. rewrite Einp.
+  destruct inp as [|b input]; [exact Hfiles|].
+  destruct (parse_insn dbg be h (b :: input)) as [[i rest]|e| |] eqn:EP; try exact I.
+  pose proof (parse_insn_good dbg be h (b :: input)) as G. rewrite EP in G. cbn [good] in G.
+  destruct G as (Gs & Gl & Gi); cbn [fst snd] in Gs, Gl, Gi.
+  assert (Hscan : plain_scan strict (mtomb h) (i :: fst (insns_loop f3 dbg be h rest)) true = true).
+  { unfold PS in HPS. rewrite (insns_step dbg be h f3 (b :: input) i rest) in HPS; [exact HPS|discriminate|exact EP]. }
+  set (c1 := with_inp rest c).
+  assert (Lr2 : (length rest < f2)%nat) by (cbn [length] in Gl, Hf2; lia).
+  assert (Lr3 : (length rest < f3)%nat) by (cbn [length] in Gl, Hf3; lia).
+  assert (DT : forall i0 moved1,
+    plain_scan strict (mtomb h) (fst (insns_loop f3 dbg be h rest)) moved1 = true ->
+    (moved1 = false -> i0 = LineSpec.IEndSequence) ->
+    (forall a, i0 <> LineSpec.ISetAddress a) ->
+    sim_post true 0 false c0
+      (match execute dbg h r i0 with
+       | Ok (r', XRow) =>
+           if r_tomb r' && negb (r_end r' && false)
+           then next_row_loop f1 dbg be false h (row_reset h r') rest added false
+           else (NRow, mk_st r' rest added (negb (r_end r')))
+       | Ok (r', XNoRow) => next_row_loop f1 dbg be false h r' rest (LineRd.add_file false i0 added) false
+       | Ok (r', XErr e) => (NErr e, mk_st r' rest (LineRd.add_file false i0 added) false)
+       | Err e => (NErr e, mk_st r rest added false)
+       | Panic => (NPanic, mk_st r rest added false)
+       | OutOfFuel => (NFuel, mk_st r rest added false)
+       end)
+      (match execute dbg h (cl_row c1) i0 with
+       | Err e => (Err e, c1) | Panic => (Panic, c1) | OutOfFuel => (OutOfFuel, c1)
+       | Ok (r', XErr e) => (Err e, with_row r' c1)
+       | Ok (r', XNoRow) => read_loop f2 dbg be sx h (with_row r' c1) true
+       | Ok (r', XRow) =>
+           let c := with_row r' c1 in
+           if true then
+             let c1 := if r_end r' then with_addr None c else c in
+             read_loop f2 dbg be sx h (with_row (row_reset h r') c1) (if r_end r' then false else true)
+           else if r_end r' then
+             match convert_address_offset c with
+             | Ok ao => (Ok (Some (CREndSequence ao)), c) | Err e => (Err e, c)
+             | Panic => (Panic, c) | OutOfFuel => (OutOfFuel, c)
+             end
+           else
+             match cl_addr c with
+             | Some a => (Ok (Some (CRSetAddress a)), with_st CSConvertRow (with_addr None c))
+             | None => ret_row h (with_st CSReadRow c)
+             end
+       end)).
+  { intros i0 moved1 HS1 HM1 Hns.
+    destruct (execute dbg h r i0) as [[r' x]|e| |] eqn:EX; try exact I.
+    destruct x as [| |e]; [| |exact I].
+    - (* reader: a row of the tombstoned sequence is skipped *)
+      pose proof (execute_tomb r i0 r' XRow Ht Hns EX) as Tr. rewrite Tr. rewrite andb_false_r. cbn [negb andb].
+      destruct (execute dbg h (cl_row c1) i0) as [[q' y]|e| |] eqn:EY;
+        try (match goal with
+             | |- sim_post _ _ _ _ ?ro (Err ?e, ?c') => exact (sim_post_err true 0 false c0 ro e c')
+             | |- sim_post _ _ _ _ ?ro (Panic, ?c') => exact (sim_post_panic true 0 false c0 ro c')
+             | |- sim_post _ _ _ _ ?ro (OutOfFuel, ?c') => exact (sim_post_fuel true 0 false c0 ro c')
+             end).
+      destruct y as [| |e];
+        try (match goal with
+             | |- sim_post _ _ _ _ ?ro (Err ?e, ?c') => exact (sim_post_err true 0 false c0 ro e c')
+             end).
+      + destruct (execute_shape r (cl_row c1) i0 r' XRow q' XRow Hns EX EY ltac:(discriminate) ltac:(discriminate) Hee)
+          as [_ Eend].
+        cbv zeta. cbn match.
+        destruct (r_end q') eqn:Eq'.
+        * (* end of the tombstoned sequence: both restart from the initial registers *)
+          assert (Er' : row_reset h r' = row_new h) by (unfold row_reset; rewrite Eend; reflexivity).
+          assert (Eq2 : row_reset h q' = row_new h) by (unfold row_reset; rewrite Eq'; reflexivity).
+          rewrite Er', Eq2.
+          apply (IH f2 f3 (row_new h) rest added false _ moved1 0 0 false c0); try reflexivity; try assumption.
+          -- exact live_new0.
+          -- right. split; reflexivity.
+          -- intros _. repeat split; reflexivity.
+          -- intros M; discriminate M.
+          -- intros M; discriminate M.
+        * apply (IHT f2 f3 (row_reset h r') rest added _ c0); try reflexivity; try assumption.
+          -- destruct moved1; [exact HS1|]. specialize (HM1 eq_refl). subst i0.
+             cbn [execute] in EY. inversion EY; subst. discriminate Eq'.
+          -- unfold row_reset. rewrite Eend. exact Tr.
+          -- unfold row_reset. cbn [cl_row with_row]. rewrite Eend, Eq'. reflexivity.
+      + exfalso.
+        destruct (execute_shape r (cl_row c1) i0 r' XRow q' XNoRow Hns EX EY ltac:(discriminate) ltac:(discriminate) Hee)
+          as [Ek _]. discriminate Ek.
+    - (* reader: no row *)
+      pose proof (execute_tomb r i0 r' XNoRow Ht Hns EX) as Tr.
+      destruct (execute dbg h (cl_row c1) i0) as [[q' y]|e| |] eqn:EY;
+        try (match goal with
+             | |- sim_post _ _ _ _ ?ro (Err ?e, ?c') => exact (sim_post_err true 0 false c0 ro e c')
+             | |- sim_post _ _ _ _ ?ro (Panic, ?c') => exact (sim_post_panic true 0 false c0 ro c')
+             | |- sim_post _ _ _ _ ?ro (OutOfFuel, ?c') => exact (sim_post_fuel true 0 false c0 ro c')
+             end).
+      destruct y as [| |e];
+        try (match goal with
+             | |- sim_post _ _ _ _ ?ro (Err ?e, ?c') => exact (sim_post_err true 0 false c0 ro e c')
+             end).
+      + exfalso.
+        destruct (execute_shape r (cl_row c1) i0 r' XNoRow q' XRow Hns EX EY ltac:(discriminate) ltac:(discriminate) Hee)
+          as [Ek _]. discriminate Ek.
+      + destruct (execute_shape r (cl_row c1) i0 r' XNoRow q' XNoRow Hns EX EY ltac:(discriminate) ltac:(discriminate) Hee)
+          as [_ Eend].
+        apply (IHT f2 f3 r' rest _ _ c0); try reflexivity; try assumption.
+        destruct moved1; [exact HS1|]. specialize (HM1 eq_refl). subst i0. cbn [execute] in EX. discriminate EX. }
+  destruct i; try (apply (DT _ true Hscan); [discriminate|intros a0; discriminate]).
+  - (* IEndSequence *) apply (DT _ false Hscan); [reflexivity|intros a0; discriminate].
+  - (* ISetAddress: excluded (a second set_address of the sequence) *) discriminate Hscan.
+  - (* IDefineFile *)
+    cbn [plain_scan] in Hscan. cbn [execute].
+    destruct (convert_file sx (p_enc (cl_prog c1)) (cl_dirs c1) (cl_ls c1) f) as [[[[name d] info] ls']|e| |];
+      try (match goal with
+           | |- sim_post _ _ _ _ ?ro (Err ?e, ?c') => exact (sim_post_err true 0 false c0 ro e c')
+           | |- sim_post _ _ _ _ ?ro (Panic, ?c') => exact (sim_post_panic true 0 false c0 ro c')
+           | |- sim_post _ _ _ _ ?ro (OutOfFuel, ?c') => exact (sim_post_fuel true 0 false c0 ro c')
+           end).
+    destruct (LineWr.add_file (cl_prog c1) name d info) as [[p' id]|e| |];
+      try (match goal with
+           | |- sim_post _ _ _ _ ?ro (Err ?e, ?c') => exact (sim_post_err true 0 false c0 ro e c')
+           | |- sim_post _ _ _ _ ?ro (Panic, ?c') => exact (sim_post_panic true 0 false c0 ro c')
+           | |- sim_post _ _ _ _ ?ro (OutOfFuel, ?c') => exact (sim_post_fuel true 0 false c0 ro c')
+           end).
+    apply (IHT f2 f3 r rest _ (with_file p' ls' id c1) c0); try reflexivity; try assumption.
+    destruct Hfiles as [extra Hx]. exists (extra ++ [id]). cbn. rewrite Hx, app_assoc. reflexivity. }
+  (* ---------------- the ghost stretch (-2): the reader skips, the converter returns events *)
+  unfold ghost_stmt. intros f2 f3 r inp added c c0 pd b0 m0 Es Hm0 Hpd Einp Hst Hf2 Hf3 HPS Ht Hee Haddr Hfiles.
+  destruct f2 as [|f2]; [lia|]. destruct f3 as [|f3]; [lia|].
+  cbn [next_row_loop read_loop]. rewrite Einp.
+  destruct inp as [|b input]; [exact Hfiles|].
+  destruct (parse_insn dbg be h (b :: input)) as [[i rest]|e| |] eqn:EP; try exact I.
+  pose proof (parse_insn_good dbg be h (b :: input)) as G. rewrite EP in G. cbn [good] in G.
+  destruct G as (Gs & Gl & Gi); cbn [fst snd] in Gs, Gl, Gi.
+  assert (Hscan : plain_scan strict (mtomb h) (i :: fst (insns_loop f3 dbg be h rest)) true = true).
+  { unfold PS in HPS. rewrite (insns_step dbg be h f3 (b :: input) i rest) in HPS; [exact HPS|discriminate|exact EP]. }
+  set (c1 := with_inp rest c).
+  assert (Lr2 : (length rest < f2)%nat) by (cbn [length] in Gl, Hf2; lia).
+  assert (Lr3 : (length rest < f3)%nat) by (cbn [length] in Gl, Hf3; lia).
+  assert (DG : forall i0 moved1,
+    plain_scan strict (mtomb h) (fst (insns_loop f3 dbg be h rest)) moved1 = true ->
+    (moved1 = false -> i0 = LineSpec.IEndSequence) ->
+    (forall a, i0 <> LineSpec.ISetAddress a) ->
+    sim_post pd b0 m0 c0
+      (match execute dbg h r i0 with
+       | Ok (r', XRow) =>
+           if r_tomb r' && negb (r_end r' && false)
+           then next_row_loop f1 dbg be false h (row_reset h r') rest added false
+           else (NRow, mk_st r' rest added (negb (r_end r')))
+       | Ok (r', XNoRow) => next_row_loop f1 dbg be false h r' rest (LineRd.add_file false i0 added) false
+       | Ok (r', XErr e) => (NErr e, mk_st r' rest (LineRd.add_file false i0 added) false)
+       | Err e => (NErr e, mk_st r rest added false)
+       | Panic => (NPanic, mk_st r rest added false)
+       | OutOfFuel => (NFuel, mk_st r rest added false)
+       end)
+      (match execute dbg h (cl_row c1) i0 with
+       | Err e => (Err e, c1) | Panic => (Panic, c1) | OutOfFuel => (OutOfFuel, c1)
+       | Ok (r', XErr e) => (Err e, with_row r' c1)
+       | Ok (r', XNoRow) => read_loop f2 dbg be sx h (with_row r' c1) false
+       | Ok (r', XRow) =>
+           let c := with_row r' c1 in
+           if false then
+             let c1 := if r_end r' then with_addr None c else c in
+             read_loop f2 dbg be sx h (with_row (row_reset h r') c1) (if r_end r' then false else false)
+           else if r_end r' then
+             match convert_address_offset c with
+             | Ok ao => (Ok (Some (CREndSequence ao)), c) | Err e => (Err e, c)
+             | Panic => (Panic, c) | OutOfFuel => (OutOfFuel, c)
+             end
+           else
+             match cl_addr c with
+             | Some a => (Ok (Some (CRSetAddress a)), with_st CSConvertRow (with_addr None c))
+             | None => ret_row h (with_st CSReadRow c)
+             end
+       end)).
+  { intros i0 moved1 HS1 HM1 Hns.
+    destruct (execute dbg h r i0) as [[r' x]|e| |] eqn:EX; try exact I.
+    destruct x as [| |e]; [| |exact I].
+    - pose proof (execute_tomb r i0 r' XRow Ht Hns EX) as Tr. rewrite Tr. rewrite andb_false_r. cbn [negb andb].
+      destruct (execute dbg h (cl_row c1) i0) as [[q' y]|e| |] eqn:EY;
+        try (match goal with
+             | |- sim_post _ _ _ _ ?ro (Err ?e, ?c') => exact (sim_post_err pd b0 m0 c0 ro e c')
+             | |- sim_post _ _ _ _ ?ro (Panic, ?c') => exact (sim_post_panic pd b0 m0 c0 ro c')
+             | |- sim_post _ _ _ _ ?ro (OutOfFuel, ?c') => exact (sim_post_fuel pd b0 m0 c0 ro c')
+             end).
+      destruct y as [| |e];
+        try (match goal with
+             | |- sim_post _ _ _ _ ?ro (Err ?e, ?c') => exact (sim_post_err pd b0 m0 c0 ro e c')
+             end).
+      + destruct (execute_shape r (cl_row c1) i0 r' XRow q' XRow Hns EX EY ltac:(discriminate) ltac:(discriminate) Hee)
+          as [_ Eend].
+        cbv zeta. cbn match.
+        destruct (r_end q') eqn:Eq'.
+        * (* the ghost sequence ends *)
+          assert (Er' : row_reset h r' = row_new h) by (unfold row_reset; rewrite Eend; reflexivity).
+          pose proof (address_offset_exact (with_row q' c1)) as AO.
+          destruct (convert_address_offset (with_row q' c1)) as [ao|e| |]; try contradiction;
+            try (match goal with
+                 | |- sim_post _ _ _ _ ?ro (Err ?e, ?c') => exact (sim_post_err pd b0 m0 c0 ro e c')
+                 end).
+          apply (gh_intro _ _ _ _ _ _ _ Hm0). split; [exact Es|]. exists f1, (row_reset h r'), added.
+          split; [reflexivity|]. split; [exact Hfiles|].
+          exists f3, moved1. split; [exact Lr3|]. split; [exact HS1|].
+          right. split; [exact Eq'|]. split; [exact Er'|]. split; [exact Hst|]. exists ao. reflexivity.
+        * assert (Em1 : moved1 = true).
+          { destruct moved1; [reflexivity|]. specialize (HM1 eq_refl). subst i0.
+            cbn [execute] in EY. inversion EY; subst. discriminate Eq'. }
+          assert (Trr : r_tomb (row_reset h r') = true /\ r_end (row_reset h r') = false).
+          { unfold row_reset. rewrite Eend. cbn. split; [exact Tr|reflexivity]. }
+          change (cl_addr (with_row q' c1)) with (cl_addr c).
+          destruct Haddr as [Ha|Ha]; rewrite Ha.
+          -- apply (gh_intro _ _ _ _ _ _ _ Hm0). split; [exact Es|]. exists f1, (row_reset h r'), added.
+             split; [reflexivity|]. split; [exact Hfiles|].
+             exists f3, moved1. split; [exact Lr3|]. split; [exact HS1|].
+             left. split; [exact Eq'|]. split; [exact Em1|]. split; [exact (proj1 Trr)|]. split; [exact (proj2 Trr)|].
+             left. split; reflexivity.
+          -- unfold ret_row.
+             destruct (convert_row h (with_st CSReadRow (with_row q' c1))) as [w|e| |] eqn:EC;
+               try (match goal with
+                    | |- sim_post _ _ _ _ ?ro (Err ?e, ?c') => exact (sim_post_err pd b0 m0 c0 ro e c')
+                    | |- sim_post _ _ _ _ ?ro (Panic, ?c') => exact (sim_post_panic pd b0 m0 c0 ro c')
+                    | |- sim_post _ _ _ _ ?ro (OutOfFuel, ?c') => exact (sim_post_fuel pd b0 m0 c0 ro c')
+                    end).
+             apply (gh_intro _ _ _ _ _ _ _ Hm0). split; [exact Es|]. exists f1, (row_reset h r'), added.
+             split; [reflexivity|]. split; [exact Hfiles|].
+             exists f3, moved1. split; [exact Lr3|]. split; [exact HS1|].
+             left. split; [exact Eq'|]. split; [exact Em1|]. split; [exact (proj1 Trr)|]. split; [exact (proj2 Trr)|].
+             right. split; [exists w; reflexivity|]. split; [reflexivity|]. split; [exact Ha|].
+             destruct pd; [rewrite (Hpd eq_refl) in Ha; discriminate Ha|reflexivity].
+      + exfalso.
+        destruct (execute_shape r (cl_row c1) i0 r' XRow q' XNoRow Hns EX EY ltac:(discriminate) ltac:(discriminate) Hee)
+          as [Ek _]. discriminate Ek.
+    - pose proof (execute_tomb r i0 r' XNoRow Ht Hns EX) as Tr.
+      destruct (execute dbg h (cl_row c1) i0) as [[q' y]|e| |] eqn:EY;
+        try (match goal with
+             | |- sim_post _ _ _ _ ?ro (Err ?e, ?c') => exact (sim_post_err pd b0 m0 c0 ro e c')
+             | |- sim_post _ _ _ _ ?ro (Panic, ?c') => exact (sim_post_panic pd b0 m0 c0 ro c')
+             | |- sim_post _ _ _ _ ?ro (OutOfFuel, ?c') => exact (sim_post_fuel pd b0 m0 c0 ro c')
+             end).
+      destruct y as [| |e];
+        try (match goal with
+             | |- sim_post _ _ _ _ ?ro (Err ?e, ?c') => exact (sim_post_err pd b0 m0 c0 ro e c')
+             end).
+      + exfalso.
+        destruct (execute_shape r (cl_row c1) i0 r' XNoRow q' XRow Hns EX EY ltac:(discriminate) ltac:(discriminate) Hee)
+          as [Ek _]. discriminate Ek.
+      + destruct (execute_shape r (cl_row c1) i0 r' XNoRow q' XNoRow Hns EX EY ltac:(discriminate) ltac:(discriminate) Hee)
+          as [_ Eend].
+        apply (IHG f2 f3 r' rest _ _ c0 pd b0 m0 Es Hm0); try reflexivity; try assumption.
+        destruct moved1; [exact HS1|]. specialize (HM1 eq_refl). subst i0. cbn [execute] in EX. discriminate EX. }
+  destruct i; try (apply (DG _ true Hscan); [discriminate|intros a0; discriminate]).
+  - (* IEndSequence *) apply (DG _ false Hscan); [reflexivity|intros a0; discriminate].
+  - (* ISetAddress: a second set_address of the sequence is F10 *) discriminate Hscan.
+  - (* IDefineFile *)
+    cbn [plain_scan] in Hscan. cbn [execute].
+    destruct (convert_file sx (p_enc (cl_prog c1)) (cl_dirs c1) (cl_ls c1) f) as [[[[name d] info] ls']|e| |];
+      try (match goal with
+           | |- sim_post _ _ _ _ ?ro (Err ?e, ?c') => exact (sim_post_err pd b0 m0 c0 ro e c')
+           | |- sim_post _ _ _ _ ?ro (Panic, ?c') => exact (sim_post_panic pd b0 m0 c0 ro c')
+           | |- sim_post _ _ _ _ ?ro (OutOfFuel, ?c') => exact (sim_post_fuel pd b0 m0 c0 ro c')
+           end).
+    destruct (LineWr.add_file (cl_prog c1) name d info) as [[p' id]|e| |];
+      try (match goal with
+           | |- sim_post _ _ _ _ ?ro (Err ?e, ?c') => exact (sim_post_err pd b0 m0 c0 ro e c')
+           | |- sim_post _ _ _ _ ?ro (Panic, ?c') => exact (sim_post_panic pd b0 m0 c0 ro c')
+           | |- sim_post _ _ _ _ ?ro (OutOfFuel, ?c') => exact (sim_post_fuel pd b0 m0 c0 ro c')
+           end).
+    apply (IHG f2 f3 r rest _ (with_file p' ls' id c1) c0 pd b0 m0 Es Hm0); try reflexivity; try assumption.
+    destruct Hfiles as [extra Hx]. exists (extra ++ [id]). cbn. rewrite Hx, app_assoc. reflexivity.
 Qed.
+
+Lemma sim_loop : forall f1, live_stmt f1.
+Proof. intros f1. exact (proj1 (sim_both f1)). Qed.
 
 (* ------------------------------------------------------------------ what the events denote *)
 
@@ -343,7 +781,7 @@ Definition INV (st : lr_state) (c : cl) (base : N) (hasrow moved : bool) (f3 : n
   LIVE h (row_reset h (st_row st)) (row_reset h (cl_row c)) base /\
   (length (st_inp st) < f3)%nat /\ PS f3 (st_inp st) moved /\
   (moved = false -> r_addr (row_reset h (st_row st)) = 0 /\ base = 0) /\
-  (hasrow = true -> moved = true).
+  (hasrow = true -> moved = true) /\ (st_inseq st = true -> moved = true).
 
 Lemma convert_row_st s c : convert_row h (with_st s c) = convert_row h c.
 Proof. reflexivity. Qed.
@@ -359,15 +797,16 @@ Lemma events_loop_S f c :
   end.
 Proof. reflexivity. Qed.
 
-Lemma sim_rows : forall f1 st c base hasrow moved f3 f2 rs stf evs cf,
+Lemma sim_rows : strict = true -> forall f1 st c base hasrow moved f3 f2 rs stf evs cf,
   INV st c base hasrow moved f3 ->
   rows_loop f1 dbg be false h st = (rs, SEnd, stf) ->
   events_loop f2 dbg be sx h c = (evs, SEnd, cf) ->
   (2 * f1 <= f2)%nat ->
   ev_match (cl_files cf) base hasrow evs rs /\ exists extra, cl_files cf = cl_files c ++ extra.
 Proof.
+  intros Hstrict.
   induction f1 as [|f1 IH]; intros st c base hasrow moved f3 f2 rs stf evs cf
-    (I1 & I2 & I3 & I4 & I5 & I6 & I7) Hr He Hf; [discriminate Hr|].
+    (I1 & I2 & I3 & I4 & I5 & I6 & I7 & I8) Hr He Hf; [discriminate Hr|].
   destruct f2 as [|[|f2]]; try lia.
   cbn [rows_loop] in Hr. unfold next_row in Hr.
   rewrite events_loop_S in He. unfold read_row in He. rewrite I2 in He.
@@ -377,7 +816,7 @@ Proof.
   assert (E0 : cl_inp c0 = st_inp st) by exact I1.
   specialize (P E0 I2 ltac:(rewrite E0; lia) I4 I5 I3 (or_intror (conj eq_refl eq_refl))).
   specialize (P ltac:(intros M; destruct (I6 M); repeat split; auto) ltac:(auto)
-                ltac:(exists []; rewrite app_nil_r; reflexivity)).
+                ltac:(exists []; rewrite app_nil_r; reflexivity) I8).
   destruct (next_row_loop (S (length (st_inp st))) dbg be false h (row_reset h (st_row st)) (st_inp st)
               (st_added st) (st_inseq st)) as [ro st'].
   destruct (read_loop (S (length (cl_inp c0))) dbg be sx h c0 false) as [co c'].
@@ -385,7 +824,8 @@ Proof.
   - (* NRow *)
     destruct (rows_loop f1 dbg be false h st') as [[rs0 s0] stf0] eqn:ER. inversion Hr; subst rs s0 stf0. clear Hr.
     destruct co as [[ev|]|e| |]; try discriminate He; [|contradiction].
-    destruct P as (base' & P1 & P2 & (ex1 & P3) & (f3' & moved' & P4 & P5 & P6) & P7).
+    destruct P as [(_ & Gs & _)|P]; [congruence|].
+    destruct P as (_ & base' & P1 & P1i & P2 & (ex1 & P3) & (f3' & moved' & P4 & P5 & P6) & P7).
     destruct (r_end (st_row st')) eqn:Ee.
     + (* end of sequence *)
       destruct P7 as (-> & Pst & Pb).
@@ -396,7 +836,8 @@ Proof.
       { unfold INV. split; [exact P1|]. split; [exact Pst|].
         split; [unfold row_reset; rewrite Ee, Eq'; exact live_new|].
         split; [exact P4|]. split; [exact P5|].
-        split; [intros _; unfold row_reset; rewrite Ee; split; reflexivity|intros M; discriminate M]. }
+        split; [intros _; unfold row_reset; rewrite Ee; split; reflexivity|].
+        split; [intros M; discriminate M|rewrite P1i; intros M; discriminate M]. }
       split.
       * cbn [ev_match]. split; [exact Ee|]. split; [|exact M1].
         intros Hh1. specialize (I7 Hh1). destruct Pb as [->|Pb]; [lia|congruence].
@@ -413,7 +854,7 @@ Proof.
         { unfold INV. split; [exact P1|]. split; [reflexivity|].
           split; [apply live_reset; assumption|]. split; [exact P4|]. split; [exact P5|].
           split; [intros M; discriminate (P6 M)|].
-          intros _. destruct moved'; [reflexivity|discriminate (P6 eq_refl)]. }
+          split; intros _; (destruct moved'; [reflexivity|discriminate (P6 eq_refl)]). }
         split.
         -- cbn [ev_match]. split; [exact Ee|]. split; [|exact M1].
            cbn [cl_files with_st] in M2. rewrite M2. apply row_match_app. apply convert_row_match; assumption.
@@ -424,14 +865,239 @@ Proof.
         { unfold INV. split; [exact P1|]. split; [exact Pst|].
           split; [apply live_reset; assumption|]. split; [exact P4|]. split; [exact P5|].
           split; [intros M; discriminate (P6 M)|].
-          intros _. destruct moved'; [reflexivity|discriminate (P6 eq_refl)]. }
+          split; intros _; (destruct moved'; [reflexivity|discriminate (P6 eq_refl)]). }
         split.
         -- cbn [ev_match]. split; [exact Ee|]. split; [|exact M1].
            rewrite M2. apply row_match_app. apply convert_row_match; assumption.
         -- exists (ex1 ++ ex2). rewrite M2, P3, app_assoc. reflexivity.
   - (* NNone *)
-    inversion Hr; subst. destruct co as [[ev|]|e| |]; try discriminate He; [contradiction|].
+    inversion Hr; subst. destruct co as [[ev|]|e| |]; try discriminate He; [destruct P as (_ & Gs & _); congruence|].
     inversion He; subst. split; [reflexivity|]. exact P.
+Qed.
+
+(* ------------------------------------------------------------------ all programs outside F10: ghost sequences *)
+
+(* ev_match extended by ghost sequences: a sequence headed by the event SetAddress(mt) (mt = the -2 value) and,
+   for an empty one, a lone EndSequence, correspond to NO reader row *)
+Fixpoint ev_match2 (files : list N) (mt base : N) (hasrow ghost : bool) (evs : list clrow) (rs : list row) : Prop :=
+  match evs with
+  | [] => rs = []
+  | CRSetAddress a :: evs' =>
+      ev_match2 files mt a hasrow false evs' rs \/ (a = mt /\ ev_match2 files mt a hasrow true evs' rs)
+  | CRRow w :: evs' =>
+      if ghost then ev_match2 files mt base hasrow true evs' rs
+      else match rs with
+           | r :: rs' => r_end r = false /\ row_match files base r w /\ ev_match2 files mt base true false evs' rs'
+           | [] => False
+           end
+  | CREndSequence off :: evs' =>
+      if ghost then ev_match2 files mt 0 false false evs' rs
+      else (match rs with
+            | r :: rs' => r_end r = true /\ (hasrow = true -> r_addr r = base + off) /\
+                          ev_match2 files mt 0 false false evs' rs'
+            | [] => False
+            end) \/ (hasrow = false /\ ev_match2 files mt 0 false false evs' rs)
+  end.
+
+Lemma ev_match2_app files extra mt : forall evs base hasrow ghost rs,
+  ev_match2 files mt base hasrow ghost evs rs -> ev_match2 (files ++ extra) mt base hasrow ghost evs rs.
+Proof.
+  induction evs as [|ev evs IH]; intros base hasrow ghost rs H; [exact H|].
+  destruct ev as [a|w|off]; cbn [ev_match2] in *.
+  - destruct H as [B|[A B]]; [left; apply IH; exact B|right; split; [exact A|apply IH; exact B]].
+  - destruct ghost; [apply IH; exact H|].
+    destruct rs as [|r rs]; [exact H|]. destruct H as (A & B & C).
+    split; [exact A|]. split; [apply row_match_app; exact B|apply IH; exact C].
+  - destruct ghost; [apply IH; exact H|].
+    destruct H as [H|[A B]]; [left|right; split; [exact A|apply IH; exact B]].
+    destruct rs as [|r rs]; [exact H|]. destruct H as (A & B & C).
+    split; [exact A|]. split; [exact B|apply IH; exact C].
+Qed.
+
+Definition rows_after (fr : nat) (ro : nr_out * lr_state) : list row * status * lr_state :=
+  match ro with
+  | (NRow, st') => let '(rs, s, stf) := rows_loop fr dbg be false h st' in (st_row st' :: rs, s, stf)
+  | (NNone, st') => ([], SEnd, st')
+  | (NErr e, st') => ([], SErr e, st')
+  | (NPanic, st') => ([], SPanic, st')
+  | (NFuel, st') => ([], SFuel, st')
+  end.
+Lemma rows_loop_S fr st : rows_loop (S fr) dbg be false h st = rows_after fr (next_row dbg be false h st).
+Proof. cbn [rows_loop]. destruct (next_row dbg be false h st) as [[| | | |] st']; reflexivity. Qed.
+
+(* reader in the middle of a next_row loop at (r, inp); converter between two read_row calls *)
+Definition SYNCK (r : row) (inp : list byte) (inseq : bool) (c : cl) (base : N) (hasrow moved : bool) (f3 : nat) : Prop :=
+  cl_inp c = inp /\ cl_st c = CSReadRow /\ LIVE h r (row_reset h (cl_row c)) base /\
+  (length inp < f3)%nat /\ PS f3 inp moved /\ (moved = false -> r_addr r = 0 /\ base = 0) /\
+  (hasrow = true -> moved = true) /\ (inseq = true -> moved = true).
+Definition GHOSTK (r : row) (inp : list byte) (inseq : bool) (c : cl) (f3 : nat) : Prop :=
+  strict = false /\ cl_inp c = inp /\ inseq = false /\ r_tomb r = true /\ r_end r = false /\
+  r_end (cl_row c) = false /\ (length inp < f3)%nat /\ PS f3 inp true /\
+  (cl_st c = CSConvertRow \/ cl_st c = CSReadRow).
+
+Lemma sim_rows2 : forall n f2, (f2 <= n)%nat ->
+  forall f1 r inp added inseq fr c rs stf evs cf base hasrow ghost f3,
+  (ghost = false /\ exists moved, SYNCK r inp inseq c base hasrow moved f3) \/
+  (ghost = true /\ GHOSTK r inp inseq c f3) ->
+  rows_after fr (next_row_loop f1 dbg be false h r inp added inseq) = (rs, SEnd, stf) ->
+  events_loop f2 dbg be sx h c = (evs, SEnd, cf) ->
+  ev_match2 (cl_files cf) (mtomb h) base hasrow ghost evs rs /\ exists extra, cl_files cf = cl_files c ++ extra.
+Proof.
+  induction n as [|n IHn]; intros f2 Hle f1 r inp added inseq fr c rs stf evs cf base hasrow ghost f3 Hcfg Hr He;
+    (destruct f2 as [|f2]; [discriminate He|]); [lia|].
+  assert (Hle2 : (f2 <= n)%nat) by lia.
+  rewrite events_loop_S in He.
+  destruct Hcfg as [(-> & moved & I1 & I2 & I3 & I4 & I5 & I6 & I7 & I8)|(-> & Es & G1 & G2 & G3 & G4 & G5 & G6 & G7 & G8)].
+  - (* ---- reader and converter in step *)
+    unfold read_row in He. rewrite I2 in He.
+    set (c0 := with_row (row_reset h (cl_row c)) (with_addr None c)) in *.
+    pose proof (sim_loop f1 (S (length (cl_inp c0))) f3 r inp added inseq c0 moved base base moved c0) as P.
+    assert (E0 : cl_inp c0 = inp) by exact I1.
+    specialize (P E0 I2 ltac:(rewrite E0; lia) I4 I5 I3 (or_intror (conj eq_refl eq_refl))).
+    specialize (P ltac:(intros M; destruct (I6 M); repeat split; auto) ltac:(auto)
+                  ltac:(exists []; rewrite app_nil_r; reflexivity) I8).
+    destruct (next_row_loop f1 dbg be false h r inp added inseq) as [ro st'] eqn:ERO.
+    destruct (read_loop (S (length (cl_inp c0))) dbg be sx h c0 false) as [co c'].
+    destruct co as [[ev|]|e| |]; try discriminate He.
+    + (* an event *)
+      destruct (events_loop f2 dbg be sx h c') as [[evs0 s1] cf0] eqn:EE.
+      assert (GHcase : moved = false /\ GH true c0 (ro, st') ev c' ->
+                (ev :: evs0, s1, cf0) = (evs, SEnd, cf) ->
+                ev_match2 (cl_files cf) (mtomb h) base hasrow false evs rs /\
+                exists extra, cl_files cf = cl_files c ++ extra).
+      { intros (Em & Es0 & f1' & r'' & added'' & Ero & (ex1 & Fx) & f3' & moved' & L3 & PS3 & Hk) He2.
+        injection He2 as <- -> ->. rewrite Ero in Hr.
+        assert (Hh0 : hasrow = false) by (destruct hasrow; [specialize (I7 eq_refl); congruence|reflexivity]).
+        destruct Hk as [(Eq' & -> & Tr & Er & [(-> & Est)|((w & ->) & _ & _ & Hp)])|(Eq' & -> & Est & off & ->)];
+          [|discriminate Hp|].
+        - (* SetAddress(-2): a ghost sequence begins *)
+          destruct (IHn f2 Hle2 f1' r'' (cl_inp c') added'' false fr c' rs stf evs0 cf (mtomb h) hasrow true f3')
+            as [M1 (ex2 & M2)]; [right; split; [reflexivity|]; unfold GHOSTK; repeat split; auto|exact Hr|exact EE|].
+          split; [cbn [ev_match2]; right; split; [reflexivity|exact M1]|].
+          exists (ex1 ++ ex2). rewrite M2, Fx, app_assoc. reflexivity.
+        - (* an empty ghost sequence: its pending address is swallowed *)
+          destruct (IHn f2 Hle2 f1' (row_new h) (cl_inp c') added'' false fr c' rs stf evs0 cf 0 false false f3')
+            as [M1 (ex2 & M2)]; [|exact Hr|exact EE|].
+          { left. split; [reflexivity|]. exists moved'. unfold SYNCK.
+            split; [reflexivity|]. split; [exact Est|].
+            split; [unfold row_reset; rewrite Eq'; exact live_new0|].
+            split; [exact L3|]. split; [exact PS3|].
+            split; [intros _; split; reflexivity|]. split; intros M; discriminate M. }
+          split; [cbn [ev_match2]; right; split; [exact Hh0|exact M1]|].
+          exists (ex1 ++ ex2). rewrite M2, Fx, app_assoc. reflexivity. }
+      destruct ro as [| |e| |]; try discriminate Hr; [|exact (GHcase P He)].
+      destruct P as [G|P]; [exact (GHcase G He)|]. clear GHcase.
+      injection He as <- -> ->.
+      cbn [rows_after] in Hr.
+      destruct fr as [|fr]; [discriminate Hr|]. rewrite rows_loop_S in Hr. unfold next_row in Hr.
+      destruct (rows_after fr (next_row_loop (S (length (st_inp st'))) dbg be false h (row_reset h (st_row st'))
+                  (st_inp st') (st_added st') (st_inseq st'))) as [[rs0 s0] stf0] eqn:ER.
+      injection Hr as <- -> ->.
+      destruct P as (_ & base' & P1 & P1i & P2 & (ex1 & P3) & (f3' & moved' & P4 & P5 & P6) & P7).
+      destruct (r_end (st_row st')) eqn:Ee.
+      * (* end of sequence *)
+        destruct P7 as (-> & Pst & Pb).
+        destruct P2 as (Tt & Eq & Hb & Hm).
+        assert (Eq' : r_end (cl_row c') = true) by (rewrite Eq; exact Ee).
+        destruct (IHn f2 Hle2 (S (length (st_inp st'))) (row_reset h (st_row st')) (st_inp st') (st_added st')
+                    (st_inseq st') fr c' rs0 stf evs0 cf 0 false false f3') as [M1 (ex2 & M2)];
+          [|exact ER|exact EE|].
+        { left. split; [reflexivity|]. exists moved'. unfold SYNCK. split; [exact P1|]. split; [exact Pst|].
+          split; [unfold row_reset; rewrite Ee, Eq'; exact live_new0|].
+          split; [exact P4|]. split; [exact P5|].
+          split; [intros _; unfold row_reset; rewrite Ee; split; reflexivity|].
+          split; [intros M; discriminate M|rewrite P1i; intros M; discriminate M]. }
+        split.
+        -- cbn [ev_match2]. left. split; [exact Ee|]. split; [|exact M1].
+           intros Hh1. specialize (I7 Hh1). destruct Pb as [->|Pb]; [lia|congruence].
+        -- exists (ex1 ++ ex2). rewrite M2, P3, app_assoc. reflexivity.
+      * destruct P7 as [(-> & Pst & Pm)|(-> & Pst & w & -> & EC)].
+        -- (* the pending address first, then the row *)
+           destruct f2 as [|f2']; [discriminate EE|].
+           rewrite events_loop_S in EE. unfold read_row in EE. rewrite Pst in EE. unfold ret_row in EE.
+           rewrite convert_row_st in EE.
+           destruct (convert_row h c') as [w|e| |] eqn:EC; cbv beta iota zeta in EE; try discriminate EE.
+           destruct (events_loop f2' dbg be sx h (with_st CSReadRow c')) as [[evs1 s2] cf1] eqn:EE1.
+           injection EE as <- -> ->.
+           destruct (IHn f2' ltac:(lia) (S (length (st_inp st'))) (row_reset h (st_row st')) (st_inp st') (st_added st')
+                       (st_inseq st') fr (with_st CSReadRow c') rs0 stf evs1 cf base' true false f3')
+             as [M1 (ex2 & M2)]; [|exact ER|exact EE1|].
+           { left. split; [reflexivity|]. exists moved'. unfold SYNCK. split; [exact P1|]. split; [reflexivity|].
+             split; [apply live_reset; assumption|]. split; [exact P4|]. split; [exact P5|].
+             split; [intros M; discriminate (P6 M)|].
+             split; intros _; (destruct moved'; [reflexivity|discriminate (P6 eq_refl)]). }
+           split.
+           ++ cbn [ev_match2]. left. split; [exact Ee|]. split; [|exact M1].
+              cbn [cl_files with_st] in M2. rewrite M2. apply row_match_app. apply convert_row_match; assumption.
+           ++ exists (ex1 ++ ex2). cbn [cl_files with_st] in M2. rewrite M2, P3, app_assoc. reflexivity.
+        -- (* a row at the current base *)
+           destruct (IHn f2 Hle2 (S (length (st_inp st'))) (row_reset h (st_row st')) (st_inp st') (st_added st')
+                       (st_inseq st') fr c' rs0 stf evs0 cf base true false f3') as [M1 (ex2 & M2)];
+             [|exact ER|exact EE|].
+           { left. split; [reflexivity|]. exists moved'. unfold SYNCK. split; [exact P1|]. split; [exact Pst|].
+             split; [apply live_reset; assumption|]. split; [exact P4|]. split; [exact P5|].
+             split; [intros M; discriminate (P6 M)|].
+             split; intros _; (destruct moved'; [reflexivity|discriminate (P6 eq_refl)]). }
+           split.
+           ++ cbn [ev_match2]. split; [exact Ee|]. split; [|exact M1].
+              rewrite M2. apply row_match_app. apply convert_row_match; assumption.
+           ++ exists (ex1 ++ ex2). rewrite M2, P3, app_assoc. reflexivity.
+    + (* the converter is at the end of its input *)
+      injection He as <- <-.
+      destruct ro as [| |e| |]; try discriminate Hr; [contradiction|].
+      cbn [rows_after] in Hr. injection Hr as <- _. split; [reflexivity|exact P].
+  - (* ---- inside a ghost sequence *)
+    unfold read_row in He.
+    destruct G8 as [Gst|Gst]; rewrite Gst in He.
+    + (* the row after SetAddress(-2) *)
+      unfold ret_row in He. rewrite convert_row_st in He.
+      destruct (convert_row h c) as [w|e| |]; cbv beta iota zeta in He; try discriminate He.
+      destruct (events_loop f2 dbg be sx h (with_st CSReadRow c)) as [[evs0 s1] cf0] eqn:EE.
+      injection He as <- -> ->.
+      destruct (IHn f2 Hle2 f1 r inp added inseq fr (with_st CSReadRow c) rs stf evs0 cf base hasrow true f3)
+        as [M1 (ex2 & M2)]; [|exact Hr|exact EE|].
+      { right. split; [reflexivity|]. unfold GHOSTK. repeat split; auto. }
+      split; [cbn [ev_match2]; exact M1|]. exists ex2. exact M2.
+    + set (c0 := with_row (row_reset h (cl_row c)) (with_addr None c)) in *.
+      subst inseq.
+      pose proof (proj2 (proj2 (sim_both f1)) (S (length (cl_inp c0))) f3 r inp added c0 c0 false 0 false Es eq_refl) as P.
+      assert (E0 : cl_inp c0 = inp) by exact G1.
+      specialize (P ltac:(intros M; discriminate M) E0 Gst ltac:(rewrite E0; lia) G6 G7 G3).
+      specialize (P ltac:(cbn; unfold row_reset; rewrite G5; cbn; exact G4) (or_intror eq_refl)
+                    ltac:(exists []; rewrite app_nil_r; reflexivity)).
+      destruct (next_row_loop f1 dbg be false h r inp added false) as [ro st'] eqn:ERO.
+      destruct (read_loop (S (length (cl_inp c0))) dbg be sx h c0 false) as [co c'].
+      destruct co as [[ev|]|e| |]; try discriminate He.
+      * destruct (events_loop f2 dbg be sx h c') as [[evs0 s1] cf0] eqn:EE. injection He as <- -> ->.
+        assert (G : GH false c0 (ro, st') ev c').
+        { destruct ro as [| |e| |]; try discriminate Hr; [destruct P as [[_ G]|P]; [exact G|]|exact (proj2 P)].
+          destruct P as (Pp & _). discriminate Pp. }
+        destruct G as (_ & f1' & r'' & added'' & Ero & (ex1 & Fx) & f3' & moved' & L3 & PS3 & Hk).
+        rewrite Ero in Hr.
+        destruct Hk as [(Eq' & -> & Tr & Er & [(-> & Est)|((w & ->) & Est & _ & _)])|(Eq' & -> & Est & off & ->)].
+        -- (* cannot happen after a reset (address None), but harmless: a ghost SetAddress *)
+           destruct (IHn f2 Hle2 f1' r'' (cl_inp c') added'' false fr c' rs stf evs0 cf (mtomb h) hasrow true f3')
+             as [M1 (ex2 & M2)]; [right; split; [reflexivity|]; unfold GHOSTK; repeat split; auto|exact Hr|exact EE|].
+           split; [cbn [ev_match2]; right; split; [reflexivity|exact M1]|].
+           exists (ex1 ++ ex2). rewrite M2, Fx, app_assoc. reflexivity.
+        -- (* a ghost row *)
+           destruct (IHn f2 Hle2 f1' r'' (cl_inp c') added'' false fr c' rs stf evs0 cf base hasrow true f3')
+             as [M1 (ex2 & M2)]; [right; split; [reflexivity|]; unfold GHOSTK; repeat split; auto|exact Hr|exact EE|].
+           split; [cbn [ev_match2]; exact M1|].
+           exists (ex1 ++ ex2). rewrite M2, Fx, app_assoc. reflexivity.
+        -- (* the ghost sequence ends *)
+           destruct (IHn f2 Hle2 f1' (row_new h) (cl_inp c') added'' false fr c' rs stf evs0 cf 0 false false f3')
+             as [M1 (ex2 & M2)]; [|exact Hr|exact EE|].
+           { left. split; [reflexivity|]. exists moved'. unfold SYNCK.
+             split; [reflexivity|]. split; [exact Est|].
+             split; [unfold row_reset; rewrite Eq'; exact live_new0|].
+             split; [exact L3|]. split; [exact PS3|].
+             split; [intros _; split; reflexivity|]. split; intros M; discriminate M. }
+           split; [cbn [ev_match2]; exact M1|].
+           exists (ex1 ++ ex2). rewrite M2, Fx, app_assoc. reflexivity.
+      * injection He as <- <-.
+        destruct ro as [| |e| |]; try discriminate Hr; [contradiction|].
+        cbn [rows_after] in Hr. injection Hr as <- _. split; [reflexivity|exact P].
 Qed.
 
 End Sim.
@@ -469,17 +1135,42 @@ Proof.
   unfold rows_model, rows_full in Hr.
   destruct (rows_loop (S (length (h_program h))) dbg be false h (st_init h (h_program h))) as [[rs1 s1] stf] eqn:ER.
   inversion Hr; subst rs1 s1. unfold events in He.
-  refine (proj1 (sim_rows dbg be sx h Hh (S (length (h_program h))) (st_init h (h_program h)) c0 0 false false
+  refine (proj1 (sim_rows dbg be sx h Hh true eq_refl (S (length (h_program h))) (st_init h (h_program h)) c0 0 false false
                    (S (length (h_program h))) (seq_fuel c0) rs stf evs cf _ ER He _)).
   - unfold INV. cbn [st_init st_inp st_row]. rewrite Er.
     split; [exact Ei|]. split; [exact Est|].
     split; [exact (live_new h)|]. split; [lia|].
     split.
     + unfold PS. rewrite plain_scan_iff. unfold known_midseq, insns_model in Hk, Ha. rewrite Hk, Ha. reflexivity.
-    + split; [intros _; split; reflexivity|intros M; discriminate M].
+    + split; [intros _; split; reflexivity|split; intros M; discriminate M].
   - unfold seq_fuel. rewrite Ei. lia.
 Qed.
 
+
+(* line_convert_sound at the script level for EVERY program outside the F10 class (no condition on the operands):
+   the events are the reader's rows plus ghost sequences (ev_match2) *)
+Lemma convert_events_sound_all dbg be sx s ls c0 rs evs cf :
+  hdr_ok (sh_h s) ->
+  known_midseq dbg be (sh_h s) = false ->
+  cl_new dbg sx s ls = Ok c0 ->
+  rows_model dbg be (sh_h s) = (rs, SEnd) ->
+  events dbg be sx (sh_h s) c0 = (evs, SEnd, cf) ->
+  ev_match2 (cl_files cf) (mtomb (sh_h s)) 0 false false evs rs.
+Proof.
+  intros Hh Hk Hn Hr He. set (h := sh_h s) in *.
+  destruct (cl_new_shape dbg sx s ls c0 Hn) as (Ei & Er & Est). fold h in Ei, Er.
+  unfold rows_model, rows_full in Hr.
+  destruct (rows_loop (S (length (h_program h))) dbg be false h (st_init h (h_program h))) as [[rs1 s1] stf] eqn:ER.
+  inversion Hr; subst rs1 s1. unfold events in He.
+  rewrite rows_loop_S in ER. unfold next_row in ER. cbn [st_init st_row st_inp st_added st_inseq] in ER.
+  refine (proj1 (sim_rows2 dbg be sx h Hh false (seq_fuel c0) (seq_fuel c0) (le_n _) _ _ _ _ _ _ c0 rs stf evs cf
+                   0 false false (S (length (h_program h))) _ ER He)).
+  left. split; [reflexivity|]. exists false. unfold SYNCK. rewrite Er.
+  split; [exact Ei|]. split; [exact Est|]. split; [exact (live_new h)|]. split; [lia|].
+  split.
+  - unfold PS. rewrite plain_scan_iff. unfold known_midseq, insns_model in Hk. rewrite Hk. reflexivity.
+  - split; [intros _; split; reflexivity|split; intros M; discriminate M].
+Qed.
 
 (* a non-trivial instance of the hypotheses: two sequences (the second without any set_address), special opcodes,
    advance_pc, fixed_advance_pc, a file change, big-endian 4-byte addresses *)
@@ -512,3 +1203,39 @@ Proof.
   intros dbg. split; [unfold hdr_ok, asz_ok; cbn; lia|].
   destruct dbg; vm_compute; repeat split; reflexivity.
 Qed.
+
+(* ------------------------------------------------------------------ tombstone operands, as witnesses *)
+Definition tomb_prog (b0 : byte) : list byte :=
+  [x00;x05;x02;xff;xff;xff;b0; x21; x02;x05; x00;x01;x01;          (* set_address -1 / -2; special; advance_pc 5; end *)
+   x00;x05;x02;x00;x00;x30;x00; x01; x02;x03; x00;x01;x01].        (* set_address 0x3000; copy; advance_pc 3; end *)
+Definition wit_tomb (b0 : byte) : header :=
+  mk_header false 3 4 0 0 1 1 true (-5)%Z 14 13 wit_std13 [] [VString [x64]] [] [wit_f1; wit_f2] (tomb_prog b0).
+Definition wit_tomb_empty : header :=
+  mk_header false 3 4 0 0 1 1 true (-5)%Z 14 13 wit_std13 [] [VString [x64]] [] [wit_f1; wit_f2]
+    [x00;x05;x02;xff;xff;xff;xfe; x02;x04; x00;x01;x01].
+Definition tomb_summary (dbg : bool) (h : header) : option (status * list N * status * list (N * N)) :=
+  match cl_new dbg wit_sx (mk_src h None None) [] with
+  | Ok c0 =>
+      Some (snd (rows_model dbg true h), map r_addr (fst (rows_model dbg true h)),
+            snd (fst (events dbg true wit_sx h c0)),
+            map (fun e => match e with
+                          | CRSetAddress a => (0, a) | CRRow w => (1, w_address_offset w) | CREndSequence n => (2, n)
+                          end) (fst (fst (events dbg true wit_sx h c0))))
+  | _ => None
+  end.
+
+(* -1 (inside the theorem's class): dropped by the reader AND by the converter.
+   -2 (outside): dropped by the reader, KEPT by the converter as a sequence headed by SetAddress(-2) — which the
+   reader drops again when the converted program is read back; if that sequence has no row the pending address is
+   swallowed and a lone EndSequence(offset) is left. *)
+Lemma tombstone_witnesses : forall dbg,
+  addrs_below (mtomb (wit_tomb xff)) (fst (insns_model dbg true (wit_tomb xff))) = true /\
+  known_midseq dbg true (wit_tomb xff) = false /\
+  tomb_summary dbg (wit_tomb xff) =
+    Some (SEnd, [12288; 12291], SEnd, [(0, 12288); (1, 0); (2, 3)]) /\
+  addrs_below (mtomb (wit_tomb xfe)) (fst (insns_model dbg true (wit_tomb xfe))) = false /\
+  tomb_summary dbg (wit_tomb xfe) =
+    Some (SEnd, [12288; 12291], SEnd,
+          [(0, 4294967294); (1, 1); (2, 6); (0, 12288); (1, 0); (2, 3)]) /\
+  tomb_summary dbg wit_tomb_empty = Some (SEnd, [], SEnd, [(2, 4)]).
+Proof. intros []; vm_compute; repeat split; reflexivity. Qed.
